@@ -41,6 +41,8 @@ func main() {
 	switch fam {
 	case "plan":
 		stats = famPlan(tr, *scratch, *seed, *tier, *workers)
+	case "sign":
+		stats = famSign(tr, *scratch, *seed, *tier, *repo)
 	case "iso":
 		stats = famIso(tr, *scratch, *seed, *tier, *workers)
 	case "conc":
